@@ -34,7 +34,7 @@ Fixpoint dec_fuel (fuel : nat) (n : N) (acc : list N) : list N :=
       if n <? 10 then acc' else dec_fuel f (n / 10) acc'
   end.
 
-Definition dec (n : N) : list N := dec_fuel (S (N.size_nat n)) n [].
+Definition dec (n : N) : list N := dec_fuel (S (N.to_nat (N.size n))) n [].
 
 Definition is_digit (b : N) : bool := (48 <=? b) && (b <=? 57).
 
@@ -57,11 +57,12 @@ Section Encoder.
   Variable repeat_min : N.     (* `repeats > 3` *)
   Variable code_offset : N.    (* 63 *)
 
-  (* sixel_code of colour c in one column: bit i set iff the i-th of the six rows has c *)
-  Fixpoint col_code (c : N) (colm : list N) (bit : N) : N :=
+  (* sixel_code of colour c in one column: bit i set iff the i-th of the six rows has c
+     (`sixel_code |= 1 << s_index`, written in Horner form) *)
+  Fixpoint col_code (c : N) (colm : list N) : N :=
     match colm with
     | [] => 0
-    | x :: r => (if x =? c then bit else 0) + col_code c r (2 * bit)
+    | x :: r => (if x =? c then 1 else 0) + 2 * col_code c r
     end.
 
   (* the columns of a band (list of <= 6 rows of equal length): transpose *)
@@ -85,7 +86,7 @@ Section Encoder.
     | [] => []
     | colm :: r =>
         if existsb (N.eqb c) colm
-        then (col, col_code c colm 1 + code_offset) :: strip_entries c (col + 1) r
+        then (col, col_code c colm + code_offset) :: strip_entries c (col + 1) r
         else strip_entries c (col + 1) r
     end.
 
